@@ -26,11 +26,13 @@ def run(chk):
     r3(chk, prog)
     r4(chk, prog)
     r5(chk, prog)
+    r6(chk, prog)
     from . import c11
     with chk.shared():
         c11.r7(chk, prog, prog.module("json_object.c"))   # shared: the sign-encoded string length is decoded before use
     chk.undecided_clauses += [
-        "string -> number conversion results (strtoll/strtod on data)",
+        "string -> double conversion results (strtod on data); the integer text rules are decided on short texts and boundary "
+        "values only (C10.R6), with strtoll / strtoull at their ISO C contracts",
         "exactness of int -> double conversions",
         "unsigned wrap-around arithmetic in the uint64 branch of json_object_int_inc (no nsw flag to anchor an obligation; value-level)",
     ]
@@ -580,3 +582,205 @@ def r3(chk, prog):
                                                                          "read" if u.op == "load" else "written",
                                                                          "signed" if ctx == "int" else "unsigned"))
     chk.floor(rid, n, 30, "accesses to the integer union members")
+
+
+# ---------------------------------------------------------------------------
+# R6 text -> integer helpers, evaluated
+_WS = b" \t\n\v\f\r"
+ERANGE, EINVAL = 34, 22
+I64MIN, I64MAX, U64MAX = -(1 << 63), (1 << 63) - 1, (1 << 64) - 1
+
+
+def _scan_int(s):
+    """(index after the integer prefix, negative?, magnitude) per the subject sequence of ISO C strtol; None if there is none"""
+    i = 0
+    while i < len(s) and s[i] in _WS:
+        i += 1
+    neg = False
+    if i < len(s) and s[i] in b"+-":
+        neg = s[i] == 0x2d
+        i += 1
+    k = i
+    while k < len(s) and 0x30 <= s[k] <= 0x39:
+        k += 1
+    if k == i:
+        return None
+    return k, neg, int(s[i:k])
+
+
+def _ctype_flags(c):
+    """glibc's ctype table entry in the C locale"""
+    if not 0 <= c < 128:
+        return 0
+    ch = chr(c)
+    fl = 0
+    if ch.isupper(): fl |= 1 << 8
+    if ch.islower(): fl |= 1 << 9
+    if ch.isalpha(): fl |= 1 << 10
+    if ch.isdigit(): fl |= 1 << 11
+    if ch in "0123456789abcdefABCDEF": fl |= 1 << 12
+    if c in _WS: fl |= 1 << 13
+    if 32 <= c < 127: fl |= 1 << 14
+    if 32 < c < 127: fl |= 1 << 15
+    if ch in " \t": fl |= 1 << 0
+    if c < 32 or c == 127: fl |= 1 << 1
+    if 32 < c < 127 and not ch.isalnum(): fl |= 1 << 2
+    if ch.isalnum(): fl |= 1 << 3
+    return fl
+
+
+def _mk_parse_pe():
+    from .. import pe
+    from ..strpe import StrPE
+
+    class _ParsePE(StrPE):
+        """json_parse_int64 / json_parse_uint64 on one concrete text; strtoll / strtoull answer per ISO C 7.22.1.4"""
+
+        def __init__(self, prog, text):
+            super().__init__(prog, max_leaves=20, max_steps=40000)
+            self.text = text
+            self.loop_widen = 1000
+            self.max_visits = 80
+            self.opaque = []
+
+        def should_inline(self, g, instr):
+            return g.internal
+
+        def init_mem(self, state, base, path, t):
+            el, fl = pe.fields_of(path)
+            if base == "text":
+                if not fl and isinstance(el, int) and 0 <= el <= len(self.text):
+                    b = (self.text + b"\0")[el]
+                    return pe.C(b if b < 128 else b - 256)
+            if base == "errno" and not path:
+                return pe.C(0)
+            if base == "ctypeloc" and not path:
+                return ("ptr", "ctype", ())
+            if base == "ctype" and not fl and isinstance(el, int) and -128 <= el < 256:
+                v = _ctype_flags(el)
+                return pe.C(v if v < 32768 else v - 65536)
+            return pe.TOP
+
+        def call_model(self, state, frame, i, args):
+            nm = i.callee
+            if nm == "__errno_location":
+                return ("ptr", "errno", ())
+            if nm == "__ctype_b_loc":
+                return ("ptr", "ctypeloc", ())
+            if nm in ("strtoll", "strtoull", "strtol", "strtoul", "strtoimax", "strtoumax"):
+                s = self._cstr(state, args[0]) if args and args[0][0] == "ptr" else None
+                if s is None or len(args) < 3 or not pe.is_const(args[2]) or args[2][1] != 10:
+                    self.opaque.append(nm)
+                    return None
+                r = _scan_int(s)
+                if r is None:
+                    end, v = 0, 0
+                else:
+                    end, neg, mag = r
+                    if nm in ("strtoll", "strtol", "strtoimax"):
+                        v = -mag if neg else mag
+                        if v < I64MIN or v > I64MAX:
+                            v = I64MIN if v < 0 else I64MAX
+                            self.store(state, ("ptr", "errno", ()), pe.C(ERANGE))
+                    else:
+                        if mag > U64MAX:
+                            v = U64MAX
+                            self.store(state, ("ptr", "errno", ()), pe.C(ERANGE))
+                        else:
+                            v = (-mag) % (1 << 64) if neg else mag
+                        if v > I64MAX:
+                            v -= 1 << 64
+                if args[1][0] == "ptr":
+                    self.store(state, args[1], self._at(args[0], end))
+                return pe.C(v)
+            r = self.libc_string_model(state, frame, i, args)
+            if r is not None:
+                return r
+            if nm and not nm.startswith("llvm."):
+                g = self.prog.resolve(nm, frame.fn.module)
+                if g is None or g.is_decl or not g.internal:
+                    self.opaque.append(nm)
+            return None
+    return _ParsePE
+
+
+def r6(chk, prog):
+    from itertools import product
+    from .. import pe
+    rid = "C10.R6"
+    chk.rule(rid, "the text -> integer helpers behind the string case of the int64 / uint64 accessors, evaluated on every text of up to 4 "
+                  "characters over ' ' TAB '-' '+' '0' '1' 'a' and on the boundary numerals: a text with no integer prefix (ISO C subject "
+                  "sequence) is refused; otherwise the stored value is the denoted integer clamped to the target type - in particular a "
+                  "negative numeral read as unsigned is refused or gives 0, never a wrapped value (strtoll / strtoull answer per their "
+                  "ISO C contract, including the white space they skip themselves)")
+    PEc = _mk_parse_pe()
+    texts = []
+    for ln in range(0, 5):
+        texts += [bytes(t) for t in product(b" \t-+01a", repeat=ln)]
+    for core in ("9223372036854775807", "9223372036854775808", "18446744073709551615", "18446744073709551616", "99999999999999999999"):
+        for pre in ("", "-", " ", " -", "\t-", "+", "\n"):
+            texts.append((pre + core).encode())
+    n = 0
+    for fname, signed in (("json_parse_int64", True), ("json_parse_uint64", False)):
+        f = prog.fn(fname)
+        chk.require(f is not None and not f.is_decl, fname + " not found")
+        chk.touched(f)
+        CLS = ["no integer prefix", "numeral within the target type", "numeral beyond the target type"] + ([] if signed else ["negative numeral"])
+        bad, und, cnt = {}, {}, {}
+        for tx in texts:
+            r = _scan_int(tx)
+            if r is None:
+                cls, ok = CLS[0], (lambda rc, out: rc != 0)
+                want = "refusal"
+            else:
+                d = -r[2] if r[1] else r[2]
+                if signed:
+                    cl = min(max(d, I64MIN), I64MAX)
+                    cls = CLS[1] if cl == d else CLS[2]
+                    ok = (lambda rc, out, cl=cl: rc == 0 and out is not None and (out - cl) % (1 << 64) == 0)
+                    want = "success with %d" % cl
+                elif d < 0:
+                    cls = CLS[3]
+                    ok = (lambda rc, out: rc != 0 or (out is not None and out % (1 << 64) == 0))
+                    want = "refusal (or 0)"
+                elif d == 0 and r[1]:
+                    cls = CLS[1]
+                    ok = (lambda rc, out: rc != 0 or (out is not None and out % (1 << 64) == 0))
+                    want = "refusal or 0"
+                else:
+                    cl = min(d, U64MAX)
+                    cls = CLS[1] if cl == d else CLS[2]
+                    ok = (lambda rc, out, cl=cl: rc == 0 and out is not None and (out - cl) % (1 << 64) == 0)
+                    want = "success with %d" % cl
+            h = PEc(prog, tx)
+            st = pe.State()
+            leaves = h.run(f, [("ptr", "text", ()), ("ptr", "out", ())], st)
+            n += 1
+            cnt[cls] = cnt.get(cls, 0) + 1
+            res = []
+            for lf in leaves:
+                if lf.kind == "ret" and lf.value is not None and pe.is_const(lf.value):
+                    o = lf.state.mem.get(("out", ()))
+                    res.append((lf.value[1], o[1] if o is not None and pe.is_const(o) else None, o is not None and not pe.is_const(o)))
+                else:
+                    res.append(None)
+            if not res or any(x is None for x in res) or any(x[2] for x in res):
+                und.setdefault(cls, (tx, sorted(set(h.opaque))))
+                continue
+            for rc, out, _ in res:
+                if not ok(rc, out) and cls not in bad:
+                    got = "refusal (%d)" % rc if rc != 0 else ("success with %s" % (out if out is None else (out % (1 << 64) if not signed else out)))
+                    bad[cls] = (tx, got, want)
+        for cls in CLS:
+            if cls in bad:
+                tx, got, want = bad[cls]
+                chk.refuted(rid, fname, cls, f.entry.term.locstr(),
+                            "%s(%r) ends in %s; the text-to-number rule requires %s" % (fname, tx.decode("latin1"), got, want),
+                            {"text": tx.decode("latin1")})
+            elif cls in und:
+                chk.undecided(rid, fname, cls, f.entry.term.locstr(),
+                              "evaluation of %r does not reach a concrete result%s" %
+                              (und[cls][0].decode("latin1"), (" (calls outside the model: %s)" % ", ".join(und[cls][1])) if und[cls][1] else ""))
+            else:
+                chk.proven(rid, fname, cls, f.entry.term.locstr(), "as required on %d texts" % cnt.get(cls, 0))
+    chk.floor(rid, n, 5000, "(helper, text) evaluations")
